@@ -535,6 +535,15 @@ def check_distribution(case):
     return dict(nontrivial=True, labels=lab)
 
 
+def _easy_only_cases(tier):
+    """Sources whose one class is present through easy samples only, replacement sampling (the only method the
+    property admits for them): a fixed list, so that every run has them."""
+    K = 300 if tier == "quick" else 2000
+    for n, m, ep, en in ((0, 30, 5, 0), (0, 60, 20, 3), (0, 45, 60, 0), (40, 0, 0, 20), (35, 0, 4, 5)):
+        for sc in ("pos", "neg"):
+            yield dict(n=n, m=m, ep=ep, en=en, sc=sc, method="replacement", strat=None, seed=7 + n + m, K=K, ratio=None)
+
+
 PROP = Prop(
     id="C11",
     rule=("wellformed (Hypothesis): sources of 1-20 or 90-130 scores per class (either side of the "
@@ -561,6 +570,8 @@ PROP = Prop(
         Clause("chain", check_chain, kind="machine", machine=make_chain_machine, quick=80,
                thorough=2400, quick_shards=2, shards=8, steps=8, min_nontrivial=20,
                doc="sample of a sample of ... histories"),
+        Clause("easy_only_class", check_distribution, kind="enum", cases=_easy_only_cases, quick_shards=4, shards=8,
+               min_nontrivial=6, doc="unbiasedness for sources with a class that has easy samples only (replacement)"),
         Clause("distribution", check_distribution, strategy=_dist_strategy, quick=12, thorough=240,
                quick_shards=4, shards=16, min_nontrivial=20,
                doc="unbiasedness: stratum sizes and per-score multiplicities (statistical)"),
